@@ -20,7 +20,7 @@ RULE = ('(a) every raising call of random building histories on both topology fl
         'descriptor, model hash); non-trivial when the model was non-empty')
 REQUIRED = ['target:derived-id-collision', 'raising-calls', 'raising-calls:history', 'raising-calls:targeted', 'snapshots-compared', 'target:dup-name',
             'target:dup-id', 'target:bad-kw-position', 'target:bad-interface-position', 'target:facility-bad-tuple-position',
-            'target:unknown-model', 'target:subinterface-vlan', 'target:link-stale-end', 'target:component-if-id-collision', 'target:stale-service', 'retry:raised-again', 'target:node-with-services-position', 'target:derived-name-collision', 'target:link-end-not-a-handle']
+            'target:unknown-model', 'target:subinterface-vlan', 'target:link-stale-end', 'target:component-if-id-collision', 'target:stale-service', 'retry:raised-again', 'target:node-with-services-position', 'target:derived-name-collision', 'target:link-end-not-a-handle', 'target-accepted:label-less-peer:copy_to_peer_labels']
 ASSUMPTIONS = ['only argument rejections are injected (the statement is about rejected arguments); exceptions raised at arbitrary '
                'internal lines would demand a transaction mechanism the library does not promise',
                'the handle object the call was made on may be left changed (e.g. rename sets handle.name before validating); only '
@@ -336,6 +336,17 @@ def targeted_ops(rng, topo, flavour):
         for pos in range(2):
             out.append(('bad-kw-position', {'op': 'service_add_interface', 'service': tm.name(sv), 'name': g.fresh('p'), 'node_id': nid('p'),
                                             'itype': 'TrunkPort', 'kw': dict(list({'capacities': {'bw': 1}}.items())[:pos] + [bad_kw[0]])}))
+    # --- a call that works port by port where a later port has nothing to give: copy_to_peer_labels with a label-less peer
+    if not sub:
+        u = g.fresh('cp')
+        pre = []
+        for x in (u + 'a', u + 'b', u + 'c'):
+            pre += [{'op': 'add_node', 'name': x, 'node_id': None, 'site': site, 'ntype': 'VM'},
+                    {'op': 'add_component', 'node': x, 'name': 'nic1', 'node_id': None, 'model_type': 'SmartNIC_ConnectX_6'}]
+        pre.append({'op': 'add_network_service', 'name': u + '-svc', 'node_id': None, 'nstype': 'L2STS',
+                    'interfaces': [[u + 'a', 'nic1-p1'], [u + 'b', 'nic1-p1'], [u + 'c', 'nic1-p1']]})
+        pre.append({'op': 'unset_property', 'elem': ['iface', u + rng.choice('bc'), 'nic1-p1'], 'pname': 'labels'})
+        out.append(('label-less-peer', {'op': 'copy_to_peer_labels', 'service': u + '-svc', 'pre_ops': pre}))
     # --- rename / set_property with invalid values
     el = g.pick_elem(tm)
     if el:
